@@ -368,6 +368,12 @@ def run(cx: Cx):
         if lists:
             continue
         if not any(implies(p.cond, f) is None for f in is_str):
+            # the key may have been normalised first ((item, False)[0], a local, ...): any established `type(<key>) == str`
+            from sa.terms import atoms_of
+            str_sym = [a for f in is_str for a in atoms_of(f)][0]
+            same_shape = [a for a in atoms_of(p.cond) if type(a) is type(str_sym) and repr(a).startswith('type(') and repr(a).endswith(repr(str_sym).split('==')[-1])]
+            if any(implies(p.cond, a) is None for a in same_shape):
+                continue
             bad_p = p
             break
     if bad_p is not None:
